@@ -40,6 +40,8 @@ pub struct CaseResult {
     pub verdict: Verdict,
     pub nontrivial: bool,
     pub classes: Vec<String>,
+    /// ids of active known findings whose triggering shape the generator removed from this case
+    pub excluded: Vec<String>,
 }
 
 /// One generated-search domain of a property
@@ -89,6 +91,9 @@ pub struct Finding {
     /// signature: rule name, tags that must all be present, substring of the message
     #[serde(default)]
     pub rule: Option<String>,
+    /// any of these rules (empty = see `rule`)
+    #[serde(default)]
+    pub rules: Vec<String>,
     #[serde(default)]
     pub tags: Vec<String>,
     #[serde(default)]
@@ -103,10 +108,14 @@ pub struct Finding {
 
 impl Finding {
     pub fn matches(&self, v: &Violation) -> bool {
+        let vr = format!("{:?}", v.rule);
         if let Some(r) = &self.rule {
-            if format!("{:?}", v.rule) != *r {
+            if vr != *r {
                 return false;
             }
+        }
+        if !self.rules.is_empty() && !self.rules.contains(&vr) {
+            return false;
         }
         if !self.tags.iter().all(|t| v.has_tag(t)) {
             return false;
@@ -221,6 +230,9 @@ fn run_shard(prop: &dyn Prop, dom: &dyn Domain, tier: Tier, seed: u64, shard: u6
             o.evaluations += 1;
             for c in &r.classes {
                 *o.classes.entry(c.clone()).or_insert(0) += 1;
+            }
+            for e in &r.excluded {
+                *o.excluded_known.entry(format!("{e} (shape removed by the generator)")).or_insert(0) += 1;
             }
         }
         match r.verdict {
@@ -645,8 +657,10 @@ pub fn triage(prop: &dyn Prop, seed: u64, n: u32) {
                 Verdict::Foreign(v) => ("foreign", v),
                 Verdict::Inconclusive(m) => ("inconclusive", Violation::new(crate::engine::Rule::Setup, m)),
             };
-            let short: String = v.msg.chars().filter(|c| !c.is_ascii_digit()).take(70).collect();
-            let key = format!("{kind} {:?} {}", v.rule, short);
+            let short: String = v.msg.chars().filter(|c| !c.is_ascii_digit()).take(60).collect();
+            let mut tg: Vec<&String> = v.tags.iter().filter(|t| t.starts_with("hist:") || t.starts_with("cache_") || t.starts_with("blocked:") || t.starts_with("err:")).collect();
+            tg.sort();
+            let key = format!("{kind} {:?} {} {:?}", v.rule, short, tg);
             let e = hist.entry(key).or_insert((0, v.msg.clone(), case.clone()));
             e.0 += 1;
         }
